@@ -683,7 +683,8 @@ def _k5_kernel(repo: Repo, f: Func, res: RuleResult):
                         and v.func.id in m.functions:
                     callee = m.functions[v.func.id]
                     comps = _pure_return_components(repo, callee)
-                    args_pure = any(isinstance(a, ast.Name) and (a.id in pure_names or a.id in pure_arrays)
+                    args_pure = any((isinstance(a, ast.Name) and (a.id in pure_names or a.id in pure_arrays))
+                                    or (isinstance(a, ast.Subscript) and base_name(a) in pure_arrays)   # row view passed directly
                                     for a in v.args)
                     if args_pure:
                         for i, el in enumerate(t.elts):
